@@ -31,9 +31,10 @@ import (
 
 // Op of one goroutine's program.
 type Op struct {
-	K   string `json:"k"` // ticket | login | affirm | cached | destroy | getkdcs | resolve | diag | print
-	SPN int    `json:"spn,omitempty"`
-	Ms  int    `json:"ms,omitempty"` // hammer: how long to keep going
+	K     string `json:"k"` // ticket | login | affirm | cached | destroy | getkdcs | resolve | diag | print
+	SPN   int    `json:"spn,omitempty"`
+	Ms    int    `json:"ms,omitempty"`       // hammer / logins: how long to keep going
+	Pause int    `json:"pause_ms,omitempty"` // logins: pause between two logins
 }
 
 // Scenario is one client shared by goroutines.
@@ -275,7 +276,7 @@ func run(c Scenario) evid.Verdict {
 					// requests for services not asked for before, back to back, for op.Ms milliseconds: each needs the
 					// TGT and its key, and with short-lived TGTs every goroutine renews the TGT in place when it runs low
 					until := time.Now().Add(time.Duration(op.Ms) * time.Millisecond)
-					for k := 0; k < 480 && r.err == nil && time.Now().Before(until); k++ {
+					for k := 0; k < 4800 && r.err == nil && time.Now().Before(until); k++ {
 						spn := 5 + (op.SPN+k)%c10.ExtraSPNs
 						t, key, err := cl.GetServiceTicket(c.Spec.SPN(spn))
 						if err == nil {
@@ -290,8 +291,12 @@ func run(c Scenario) evid.Verdict {
 					r.err = cl.Login()
 				case "logins":
 					// back-to-back logins: each replaces the TGT and its session key while other goroutines use them
-					for k := 0; k < op.SPN && r.err == nil; k++ {
+					until := time.Now().Add(time.Duration(op.Ms) * time.Millisecond)
+					for k := 0; (k < op.SPN || time.Now().Before(until)) && r.err == nil; k++ {
 						r.err = cl.Login()
+						if op.Ms > 0 {
+							time.Sleep(time.Duration(1+op.Pause) * time.Millisecond) // keep going for op.Ms
+						}
 					}
 				case "affirm":
 					r.err = cl.AffirmLogin()
@@ -487,9 +492,14 @@ func drawStorm(t *rapid.T) Case {
 	ng := rapid.SampledFrom([]int{4, 8}).Draw(t, "goroutines")
 	relogin := rapid.IntRange(0, 2).Draw(t, "relogin") == 0 || os.Getenv("C11_RELOGIN") != ""
 	for g := 0; g < ng; g++ {
-		prog := []Op{{K: "hammer", SPN: g * 480, Ms: 2000}}
+		dur := 2000
+		if os.Getenv("C11_LONGSTORM") != "" {
+			dur = 5000
+		}
+		prog := []Op{{K: "hammer", SPN: g * 4800, Ms: dur}}
 		if g == 0 && relogin {
-			prog = []Op{{K: "logins", SPN: rapid.IntRange(10, 30).Draw(t, "logins")}}
+			prog = []Op{{K: "logins", SPN: rapid.IntRange(10, 30).Draw(t, "logins"), Ms: rapid.SampledFrom([]int{0, dur}).Draw(t, "loginsfor"),
+				Pause: rapid.SampledFrom([]int{0, 50, 200}).Draw(t, "loginpause")}}
 		}
 		c.Progs = append(c.Progs, prog)
 		c.StartUs = append(c.StartUs, rapid.SampledFrom([]int{0, 0, 50, 500}).Draw(t, "startoffset"))
